@@ -118,6 +118,10 @@ func c10GlobMatches(c *C10Case, i int, pat string) []int {
 			ok = false
 		case "../*.journal":
 			ok = inSub(i) && !inSub(k)
+		case "~/*.journal": // HOME is the case's directory
+			ok = !inSub(k)
+		case "~/sub/?.journal":
+			ok = inSub(k) && len(base(k)) == len("a.journal")
 		}
 		if ok {
 			out = append(out, k)
@@ -535,7 +539,7 @@ func TestC10Enum(t *testing.T) {
 func genC10(t *rapid.T) *C10Case {
 	n := rapid.IntRange(2, 5).Draw(t, "n")
 	c := &C10Case{N: n, Oversized: -1}
-	globs := []string{"*.journal", "**/*.journal", "sub/*.journal", "[ab].journal", "?.journal", "nomatch*.journal", "../*.journal"}
+	globs := []string{"*.journal", "**/*.journal", "sub/*.journal", "[ab].journal", "?.journal", "nomatch*.journal", "../*.journal", "~/*.journal", "~/sub/?.journal"}
 	for i := 0; i < n; i++ {
 		k := rapid.IntRange(0, 4).Draw(t, "ndirs")
 		var ds []IncDir
